@@ -318,3 +318,34 @@ pub(crate) fn layout_trace(page: u64, partial: bool, base: u64, lines: &[String]
     }
     let _ = std::fs::write(path, out);
 }
+
+pub mod args {
+    /// The response-file tokenizer (`crate::args::arguments_from_string`).
+    pub fn arguments_from_string(input: &str) -> Result<Vec<String>, String> {
+        crate::args::verif_arguments_from_string(input)
+    }
+}
+
+pub mod archive {
+    /// Every entry `ArchiveIterator` yields for `data`: `(name, data offset, length)` for regular entries, `(name, 0, 0)`
+    /// for thin ones, then the error text if iteration stopped with an error.
+    #[allow(clippy::type_complexity)]
+    pub fn entries(data: &[u8]) -> (Vec<(Vec<u8>, usize, usize)>, Option<String>) {
+        use crate::archive::ArchiveEntry;
+        let mut out = Vec::new();
+        let iter = match crate::archive::ArchiveIterator::from_archive_bytes(data) {
+            Ok(iter) => iter,
+            Err(e) => return (out, Some(e.to_string())),
+        };
+        for entry in iter {
+            match entry {
+                Ok(ArchiveEntry::Regular(c)) => {
+                    out.push((c.ident.as_slice().to_vec(), c.data_offset, c.entry_data.len()));
+                }
+                Ok(ArchiveEntry::Thin(t)) => out.push((t.ident.as_slice().to_vec(), 0, 0)),
+                Err(e) => return (out, Some(e.to_string())),
+            }
+        }
+        (out, None)
+    }
+}
